@@ -70,16 +70,14 @@ class ConstWorld(FieldWorld):
         self.syms = {}
 
     def to_fe(self, v, mont=None):
-        try:
-            return FieldWorld.to_fe(self, v, mont)
-        except Unsupported:
-            if isinstance(v, Agg) and len(v.f) == 4 and all(isinstance(x, Sc) and x.conc() for x in v.f):
-                raw = sum(x.v << (64 * i) for i, x in enumerate(v.f))
-                std = raw * self.Rinv % self.p
+        if isinstance(v, Agg) and len(v.f) == 4 and all(isinstance(x, Sc) and x.conc() for x in v.f):
+            raw = sum(x.v << (64 * i) for i, x in enumerate(v.f))
+            std = raw * self.Rinv % self.p if (self.mont if mont is None else mont) else raw % self.p
+            if std >= (1 << 40) and self.p - std >= (1 << 40):
                 s = z3.Real("c_%x" % std)
                 self.syms[str(s)] = (s, std)
                 return fe(s)
-            raise
+        return FieldWorld.to_fe(self, v, mont)
 
 
 def linear_in(stats, hy, out, ins, what):
